@@ -10750,7 +10750,7 @@ pub mod verif {
                 has_expiry: r.expiry.is_some(),
             }
         }
-        fn to_record(&self, base: Instant) -> ChunkRecord {
+        pub(super) fn to_record(&self, base: Instant) -> ChunkRecord {
             ChunkRecord {
                 payload: Bytes::from(vec![0u8; self.len]),
                 sent_time: base + Duration::from_millis(self.sent_ms),
@@ -10895,5 +10895,79 @@ impl SctpTransport {
     /// H2: `transmit_chunks_with_tag` (MTU batching + packet assembly) on already encoded chunks.
     pub async fn verif_transmit_chunks(&self, chunks: Vec<Bytes>, tag: u32) -> Result<()> {
         self.inner.transmit_chunks_with_tag(chunks, tag).await
+    }
+}
+
+#[cfg(rustrtc_verif)]
+impl SctpTransport {
+    /// H2: load a sender state (sent queue, outbound queue, window variables) into an idle
+    /// transport so that `handle_timeout` / `transmit` / the TLP probe can be run on it as
+    /// functions. Record times are `sent_ms` milliseconds after (creation time − 100 s).
+    #[allow(clippy::too_many_arguments)]
+    pub fn verif_load_sender(
+        &self,
+        sent: &[verif::VRecord],
+        outbound: &[(u16, u32, u16, u8, usize, Option<u16>, bool)],
+        cwnd: usize,
+        flight: usize,
+        peer_rwnd: u32,
+        next_tsn: u32,
+        sack_needed: bool,
+    ) {
+        let i = &self.inner;
+        let base = i.stats_created_time - Duration::from_secs(100);
+        {
+            let mut q = i.sent_queue.lock();
+            q.clear();
+            for r in sent {
+                q.insert(r.tsn, r.to_record(base));
+            }
+        }
+        {
+            let mut o = i.outbound_queue.lock();
+            o.clear();
+            for (sid, ppid, ssn, flags, len, mr, exp) in outbound {
+                o.push_back(OutboundChunk {
+                    stream_id: *sid,
+                    ppid: *ppid,
+                    payload: Bytes::from(vec![0u8; *len]),
+                    flags: *flags,
+                    ssn: *ssn,
+                    max_retransmits: *mr,
+                    expiry: if *exp { Some(base + Duration::from_secs(3600)) } else { None },
+                });
+            }
+        }
+        i.cwnd_tx.store(cwnd, Ordering::SeqCst);
+        i.flight_size.store(flight, Ordering::SeqCst);
+        i.peer_rwnd.store(peer_rwnd, Ordering::SeqCst);
+        i.next_tsn.store(next_tsn, Ordering::SeqCst);
+        i.sack_needed.store(sack_needed, Ordering::SeqCst);
+        i.remote_verification_tag.store(1, Ordering::SeqCst);
+        *i.last_t3_fire_time.lock() = None;
+        i.tlp_probe_sent.store(false, Ordering::SeqCst);
+    }
+
+    /// the sent queue with times relative to (creation time − 100 s)
+    pub fn verif_sent_queue(&self) -> Vec<verif::VRecord> {
+        let base = self.inner.stats_created_time - Duration::from_secs(100);
+        self.inner
+            .sent_queue
+            .lock()
+            .iter()
+            .map(|(t, r)| verif::VRecord::from_record(*t, r, Some(base)))
+            .collect()
+    }
+
+    pub async fn verif_handle_timeout(&self) -> Result<()> {
+        self.inner.handle_timeout().await
+    }
+
+    pub async fn verif_transmit(&self) -> Result<()> {
+        self.inner.transmit().await
+    }
+
+    pub fn verif_tlp_probe(&self) -> bool {
+        self.inner.maybe_send_tlp_probe(Instant::now())
     }
 }
